@@ -137,6 +137,7 @@ type subRun struct {
 	held     map[string]proto.Message // what the subscriber holds per id (projected), for equivalence
 	// undetermined: the contract stopped fixing what this subscriber receives (see expect); its log is not compared.
 	undetermined bool
+	cancelled    bool // cancelled mid-history by CancelSub: nothing more is expected of it
 }
 
 // Runner executes ops against the real resource and the model side by side.
@@ -167,6 +168,22 @@ func (r *Runner) observe(kind string, m proto.Message) {
 
 // OpenSub opens another subscription now (its seed is the current contents).
 func (r *Runner) OpenSub(spec SubSpec) { r.open(spec) }
+
+// NumSubs returns the number of subscriptions opened so far.
+func (r *Runner) NumSubs() int { return len(r.subs) }
+
+// CancelSub cancels subscription i mid-history and waits until its stream has closed (a subscriber that leaves must not
+// change what the remaining ones are sent). Returns false if it was cancelled before.
+func (r *Runner) CancelSub(i int) bool {
+	sr := r.subs[i]
+	if sr.cancelled {
+		return false
+	}
+	sr.cancelled = true
+	sr.cancel()
+	<-sr.done
+	return true
+}
 
 // NewRunner builds the resource, the model and opens the subscriptions (so their seeds are the initial contents).
 func NewRunner(cfg Config, subs ...SubSpec) *Runner {
@@ -400,6 +417,8 @@ func (r *Runner) Do(op Op) error {
 	var found bool
 	var list []proto.Message
 	var panicked any
+	var opts []resource.WriteOption
+	var canary func() error
 	var in proto.Message
 	func() {
 		defer func() { panicked = recover() }()
@@ -426,17 +445,30 @@ func (r *Runner) Do(op Op) error {
 			list = r.Col.List(ropts...)
 		case OpSet:
 			in = proto.Clone(op.Val)
-			ret, err = r.Val.Set(in, op.WriteOptions(log)...)
+			opts, canary = withCanaries(op.WriteOptions(log))
+			ret, err = r.Val.Set(in, opts...)
 		case OpAdd:
 			in = proto.Clone(op.Val)
-			ret, err = r.Col.Add(op.ID, in, op.WriteOptions(log)...)
+			opts, canary = withCanaries(op.WriteOptions(log))
+			ret, err = r.Col.Add(op.ID, in, opts...)
 		case OpUpdate:
 			in = proto.Clone(op.Val)
-			ret, err = r.Col.Update(op.ID, in, op.WriteOptions(log)...)
+			opts, canary = withCanaries(op.WriteOptions(log))
+			ret, err = r.Col.Update(op.ID, in, opts...)
 		case OpDelete:
-			ret, err = r.Col.Delete(op.ID, op.WriteOptions(log)...)
+			opts, canary = withCanaries(op.WriteOptions(log))
+			ret, err = r.Col.Delete(op.ID, opts...)
 		}
 	}()
+	if canary != nil && panicked == nil {
+		if cerr := canary(); cerr != nil {
+			return fmt.Errorf("%v: %v", op, cerr)
+		}
+	}
+	// the caller may do what it likes with the message it handed in once the call is over
+	if in != nil && r.Observe == nil {
+		lib.Scribble(in)
+	}
 	c1 := r.Clock.Peek()
 	if panicked != nil {
 		return fmt.Errorf("%v panicked: %v", op, panicked)
@@ -568,6 +600,24 @@ func (r *Runner) Do(op Op) error {
 	return r.compareState(op)
 }
 
+// withCanaries hands the options over the way a caller with a longer option list does: as a sub-slice whose backing
+// array goes on with two more options of the caller's. A callee that appends to the slice it was given writes over them;
+// the returned check finds out by using them.
+func withCanaries(opts []resource.WriteOption) ([]resource.WriteOption, func() error) {
+	full := make([]resource.WriteOption, len(opts), len(opts)+2)
+	copy(full, opts)
+	full = append(full, resource.WithAllowMissing(true), resource.WithAllowMissing(true))
+	return full[:len(opts)], func() error {
+		for i := len(opts); i < len(full); i++ {
+			probe := resource.NewCollection()
+			if _, err := probe.Delete("not-there", full[i]); err != nil {
+				return fmt.Errorf("the call wrote into the caller's option slice beyond the options it was given (the caller's next option, allow-missing, now makes a delete of an absent id fail with %v)", err)
+			}
+		}
+		return nil
+	}
+}
+
 func diffOrNil(a, b proto.Message) []string {
 	if a == nil || b == nil || !a.ProtoReflect().IsValid() || !b.ProtoReflect().IsValid() || a.ProtoReflect().Descriptor() != b.ProtoReflect().Descriptor() {
 		return nil
@@ -687,6 +737,9 @@ func (r *Runner) Finish() error {
 		}
 	}
 	for i, sr := range r.subs {
+		if sr.cancelled {
+			continue
+		}
 		<-sr.done
 		sr.mu.Lock()
 		got, timedOut, closed := sr.got, sr.timedOut, sr.closed
